@@ -172,6 +172,8 @@ def impl(case):
     kwp = build_policy(case["kw"])
     if case["kw"][0] != "none":
         kw["retries"] = kwp
+    elif case.get("explicit_none"):
+        kw["retries"] = None          # retries=None passed explicitly: the same as not passing it
     poolp = build_policy(case["pool"])
     body = b"payload" if case["body"] else None
     with installed(net):
